@@ -288,6 +288,137 @@ def rules(rep, m):
         r4.ok()
 
 
+    # R-C06-5 ------------------------------------------------------------
+    r5 = rep.rule("R-C06-5", "cmb_condition_signal, the one place that wakes several waiters of one waiting list in a "
+                  "single step, issues the wake-up events in the order of the list's own comparator (priority, then "
+                  "waiting time), not in the order of the partially ordered heap array; the events carry the same "
+                  "time and the waiter's priority, so the event queue serves them in that order", floor=3)
+    cs = m.need("cmb_condition_signal")
+    cx = FuncCtx(m, cs)
+    cvp = cs.params[0]["name"]
+    P = "%s->guard." % cvp
+    preds = [c for c in walk(cs.body) if c["kind"] == "CallExpr" and callee_ref(c) is None
+             and cx.canon(kids(c)[0]).lstrip("*").endswith(".item[1]")]
+    scans = [x for x in walk(cs.body) if x["kind"] == "ForStmt" and preds and any(y is preds[0] for y in walk(x))]
+    if len(preds) != 1 or len(scans) != 1:
+        raise AnalysisBroken("R-C06-5: cmb_condition_signal no longer has one scan loop over the waiting list")
+    scan = scans[0]
+    lv = [x["name"] for x in walk(kids(scan)[0]) if x["kind"] == "VarDecl"][0]
+    entry = "%sheap[%s]" % (P, lv)
+    scheds = [y for y in walk(cs.body) if y["kind"] == "CallExpr" and callee_ref(y) == "cmb_event_schedule"]
+    r5.instance("%d wake-up site(s)" % len(scheds))
+    in_scan = [y for y in scheds if any(z is y for z in walk(scan))]
+    if in_scan:
+        rep.finding(r5, cs.name, "wake:array-order", "wake-up events are scheduled while scanning the heap array, i.e. in "
+                    "array order: among waiters of equal priority the array order is not the waiting-time order once "
+                    "the heap has been reshuffled by a removal", where=m.rel(loc(in_scan[0])))
+        r5.fail()
+    else:
+        r5.ok()
+        # the recorded list and how it is ordered
+        from .. import inv
+        finals = [(l, r_, n_) for l, r_, k, n_ in inv.stores(cs) if k == "=" and r_ is not None
+                  and strip(l, casts=True)["kind"] == "ArraySubscriptExpr" and any(z is n_ for z in walk(scan))
+                  and cx.canon(r_) in (entry, "*&" + entry)]
+        if len(finals) != 1:
+            raise AnalysisBroken("R-C06-5: cannot find where cmb_condition_signal records a satisfied entry")
+        fl = strip(finals[0][0], casts=True)
+        L = render(kids(fl)[0])
+        jx = render(kids(fl)[1])
+        whiles = [w for w in walk(scan) if w["kind"] == "WhileStmt"]
+        sorts = [y for y in walk(cs.body) if y["kind"] == "CallExpr" and callee_ref(y) in ("qsort",)]
+        if not whiles and not sorts:
+            rep.finding(r5, cs.name, "wake:array-order", "satisfied entries are appended to %s in heap-array order and "
+                        "woken in that order; the array is only partially ordered" % L, where=m.rel(loc(finals[0][2])))
+            r5.fail()
+        elif len(whiles) == 1 and not sorts:
+            w = whiles[0]
+            cond = strip(kids(w)[0])
+            good = False
+            why = "unrecognised"
+            if cond["kind"] == "BinaryOperator" and cond.get("opcode") == "&&":
+                lo, cmpc = strip(kids(cond)[0]), strip(kids(cond)[1])
+                neg = False
+                if cmpc["kind"] == "UnaryOperator" and cmpc.get("opcode") == "!":
+                    neg, cmpc = True, strip(kids(cmpc)[0])
+                if cmpc["kind"] == "CallExpr" and re.sub(r"[\s()]", "", render(lo)) in ("%s>0" % jx, "%s>0u" % jx, "%s!=0" % jx):
+                    fn = cx.canon(kids(cmpc)[0]).lstrip("*(").rstrip(")")
+                    own = fn in (P + "heap_compare",) or fn == (cmpf.name if cmpf else None)
+                    a = [cx.canon(z) for z in kids(cmpc)[1:]]
+                    araw = [re.sub(r"[\s()]", "", render(cx.resolve(z))) for z in kids(cmpc)[1:]]
+                    prev = "&%s[%s-1]" % (L, jx)
+                    prevu = "&%s[%s-1u]" % (L, jx)
+                    isnew = [x_ in ("&" + entry,) for x_ in a]
+                    isprev = [x_ in (prev, prevu) for x_ in araw]
+                    body = [render(z).replace(" ", "") for z in (kids(kids(w)[1]) if kids(w)[1]["kind"] == "CompoundStmt" else [kids(w)[1]])]
+                    shift = any(re.sub(r"[()]", "", b_) in ("%s[%s]=%s[%s-1]" % (L, jx, L, jx), "%s[%s]=%s[%s-1u]" % (L, jx, L, jx)) for b_ in body) \
+                        and any(b_ in (jx + "--", "--" + jx) for b_ in body) and len(body) == 2
+                    r5.instance("insertion into %s by %s(%s), shift=%s" % (L, fn, ", ".join(araw), shift))
+                    if not own:
+                        why = "the list is ordered by '%s', not by the waiting list's own comparator" % fn
+                    elif not shift:
+                        why = "the shifting loop is not the insertion-sort step"
+                    elif isnew == [True, False] and isprev == [False, True]:
+                        good = not neg
+                        why = "the list is kept in the reverse of the queue order"
+                    elif isnew == [False, True] and isprev == [True, False]:
+                        good = neg
+                        why = "the list is kept in the reverse of the queue order"
+            # the insertion index starts at the old count
+            jdecl = [x for x in walk(scan) if x["kind"] == "VarDecl" and x.get("name") == jx]
+            cntv = None
+            if jdecl and kids(jdecl[0]):
+                mm = re.match(r"\(?(\w+)\+\+\)?$", render(kids(jdecl[0])[0]).replace(" ", ""))
+                cntv = mm.group(1) if mm else None
+            if good and cntv is None:
+                good, why = False, "the insertion does not start behind the last recorded entry"
+            if why == "unrecognised":
+                raise AnalysisBroken("R-C06-5: the ordering construct in cmb_condition_signal is not recognised (%s)" % render(cond))
+            if not good:
+                rep.finding(r5, cs.name, "wake:order", "satisfied entries are woken in the order of %s, and %s" % (L, why),
+                            where=m.rel(loc(w)))
+                r5.fail()
+            else:
+                r5.ok()
+            # second pass ascending over the list
+            okasc = True
+            for y in scheds:
+                chain = [a_ for a_ in inv.enclosing_chain(cs, y) if a_["kind"] == "ForStmt"]
+                if len(chain) != 1:
+                    okasc = False
+                    continue
+                fk = kids(chain[0])
+                v2 = [x for x in walk(fk[0]) if x["kind"] == "VarDecl"]
+                asc = v2 and kids(v2[0]) and cx.canon(kids(v2[0])[0]) == "0" and \
+                    render(fk[2]).replace(" ", "") == "(%s<%s)" % (v2[0]["name"], cntv) and \
+                    render(fk[3]).replace(" ", "") in (v2[0]["name"] + "++", "++" + v2[0]["name"])
+                subj = re.sub(r"[\s()]", "", render(cx.resolve(kids(y)[2])))
+                if not asc or subj != "%s[%s].item[0]" % (L, v2[0]["name"] if v2 else "?"):
+                    okasc = False
+            r5.instance("second pass ascending over %s[0..%s): %s" % (L, cntv, okasc))
+            if not okasc:
+                rep.finding(r5, cs.name, "wake:pass-order", "the wake-up pass does not run through %s from its first to its "
+                            "last recorded entry" % L, where=m.rel(cs.where))
+                r5.fail()
+            else:
+                r5.ok()
+        else:
+            raise AnalysisBroken("R-C06-5: the ordering construct in cmb_condition_signal is not recognised")
+    # event time and priority of every wake-up
+    for y in scheds:
+        a = [cx.canon(z) for z in kids(y)[1:]]
+        subj = cx.canon(kids(y)[2])
+        okp = a[3] in ("cmb_time()", "sim_time") and (a[4] in ("cmb_process_priority(%s)" % subj, "%s->priority" % subj)
+                                                      or re.match(r"-?\d+$", a[4]))
+        r5.instance("wake-up event (time %s, priority %s)" % (a[3], a[4][:60]))
+        if not okp:
+            rep.finding(r5, cs.name, "wake:event-key", "wake-up event scheduled at '%s' with priority '%s': the event queue "
+                        "then does not preserve the waiting-list order" % (a[3], a[4]), where=m.rel(loc(y)))
+            r5.fail()
+        else:
+            r5.ok()
+
+
 def run(tier="quick"):
     models = common.load_models(tier)
     rep = Report(PID, tier, models[0])
